@@ -4,7 +4,7 @@ from vlib import enc
 from checklib import Scenario
 
 RULE = ("every field kind (key, value, continuation line, section, comment before, comment after, file name, directory name, "
-        "full path of the main file of a layered read at PATH_MAX-1 and just below, option string) x lengths {1, BUFSIZ-2..BUFSIZ+2, 2*BUFSIZ, 64Ki (quick) / 1Mi (thorough)} and {NAME_MAX-1, NAME_MAX} "
+        "full path of the main file of a layered read at PATH_MAX-1 and just below, file name (NAME_MAX-5..NAME_MAX) and full path (PATH_MAX-6..PATH_MAX-1) handed to econf_writeFile, option string) x lengths {1, BUFSIZ-2..BUFSIZ+2, 2*BUFSIZ, 64Ki (quick) / 1Mi (thorough)} and {NAME_MAX-1, NAME_MAX} "
         "x every API copying that field: read, plain getter, extended getter, merge, write + re-read, setters, layered read; "
         "the oracle checks the LENGTH of what comes back against what was put in; values also against the model; "
         "distinct by (field, length)")
@@ -96,6 +96,28 @@ def gen(rng, tier):
                 "readfile 2 %s x3d x23" % enc(etc + tail), "path 2"]
         s = Scenario(cmds, tags=("pathmax",)); s.field, s.n = "pathmax", total
         out.append(s)
+    # econf_writeFile with file names up to NAME_MAX and with whole paths up to PATH_MAX-1: written, and read back
+    for n in (250, 251, 252, 253, 254, 255):
+        fname = b"w" * (n - 5) + b".conf"
+        cmds = ["fsdir %s 0 0" % enc(b"/wd"), "newini 0", "set 0 string - %s %s 0" % (enc(b"k"), enc(b"written")),
+                "writeto 0 %s %s" % (enc(b"/wd"), enc(fname)), "readfile 1 %s x3d x23" % enc(b"/wd/" + fname), "getall 1"]
+        s = Scenario(cmds, tags=("write-names",)); s.field, s.n = "write-names", n
+        out.append(s)
+    for total in (4095, 4094, 4093, 4092, 4091, 4090, 4000):
+        tail = b"/out.conf"
+        room = total - rl - len(b"/w") - len(tail)
+        comps = []
+        while room > 0:
+            c = min(room - 1, 200)
+            if c <= 0: break
+            if room - 1 - c == 1: c -= 1
+            comps.append(b"d" * c); room -= c + 1
+        wd = b"/w" + b"".join(b"/" + c for c in comps)
+        assert rl + len(wd) + len(tail) == total, (rl, len(wd), total)
+        cmds = ["fsdir %s 0 0" % enc(wd), "newini 0", "set 0 string - %s %s 0" % (enc(b"k"), enc(b"written")),
+                "writeto 0 %s %s" % (enc(wd), enc(tail[1:])), "readfile 1 %s x3d x23" % enc(wd + tail), "getall 1"]
+        s = Scenario(cmds, tags=("write-pathmax",)); s.field, s.n = "write-pathmax", total
+        out.append(s)
     for n in (100, 5000, 70000):
         opts = b"PARSING_DIRS=" + b":".join(b"/p%d" % i + b"x" * 20 for i in range(n // 25)) + b";ROOT_PREFIX=/" + b"r" * n
         s = Scenario(["newopts 0 " + enc(opts), "opts 0"], tags=("options",)); s.field, s.n = "options", n
@@ -119,6 +141,9 @@ def oracle(s, ilines):
         if enc(b"ONLY_VENDOR")[1:] in ilines[6]: return "a %d-byte drop-in name no longer masks the same name of the lower layer: %s" % (n, ilines[6][:200])
     if field == "pathmax":
         if "x4b4559" not in ilines[3] or enc(b"etc") [1:] not in ilines[3]: return "main file with a real path of %d bytes not used by econf_readDirs: %s" % (n, ilines[3][:200])
+    if field in ("write-names", "write-pathmax"):
+        if ilines[3] != "rc=0": return "econf_writeFile refuses a legal %s of %d bytes: %s" % ("file name" if field == "write-names" else "path", n, ilines[3])
+        if not ilines[4].startswith("rc=0") or enc(b"written")[1:] not in ilines[5]: return "file written under a %d-byte name cannot be read back: %s %s" % (n, ilines[4][:80], ilines[5][:120])
     if field == "setter":
         for idx in (2, 4):
             l = ilines[idx]
